@@ -77,6 +77,21 @@ CLAIMED["C20"] = {
     "technique": "deterministic simulation: seeded call histories on a shared object pool with whole-pool before/after snapshots (aliasing visible), double execution under an identical simulated random stream, disk faults on save steps",
 }
 
+# additions of later rounds (DESIGN.md 10.6, rounds 4-5), appended to the texts above
+EXTRA = {
+    "C01": " Later additions: all-symbolic circuits (the library's sympy lifting path) compared after substituting a random point; failing allocations (MemoryError at a scheduled numpy allocation requested by the library) as a fault kind - the error may propagate or be coped with, the answer may never be wrong; back-ends that evolve the default state buffer in place.",
+    "C04": " Later additions: registers of 9-10 qubits with randomness on the lowest-numbered qubits; states the Wavefunction class accepts although their probabilities sum to 1-d, sampled up to 3e5 times directly and through runners (the sampler may refuse, it may never return an outcome of zero amplitude); the adversarial generator delegates every method other than choice() to real numpy.",
+    "C05": " Later additions: saves through a caller-owned handle positioned after text the caller wrote itself (the caller's bytes must survive every outcome of the save, the document must load from that position).",
+    "C12": " Later additions: drift sequences (many accepted assignments each inside the tolerance, all in one direction), boolean-mask and negative-step indices, containers assigned at integer indices (found F12), pairs of wavefunctions living on one shared array, Dicke states up to 11 qubits.",
+    "C13": " Later additions: weights held in caller-owned containers (list, tuple, float64/int64 arrays) reused across calls; an adversarial draw policy returning distinct outcomes in ascending probability.",
+    "C14": " Later additions: tuple sequences for batch arguments; circuit objects that live for one call only (addresses are reused).",
+    "C15": " Later additions: a peer that recycles the result objects it returned before, a peer that declines batch requests, circuits with idle upper qubits in the binding step.",
+    "C17": "",
+    "C20": " Later additions: after every call the client edits the (second) result - operators, matrices, sparse matrices, arrays, lists, dicts, wavefunctions, measurements, distributions - and no earlier object may change, and a third call must still give the first answer; distributions kept as given (normalize=False); the client also edits its own containers after handing them to the library.",
+}
+for _pid, _t in EXTRA.items():
+    CLAIMED[_pid]["text"] += _t
+
 PENDING = {pid: "applicable (DESIGN.md §3) but its check is not built yet at this commit; not claimed until it is" for pid in
            ["C01", "C04", "C05", "C11", "C13", "C14", "C15", "C17", "C20"] if pid not in CLAIMED}
 
@@ -115,7 +130,7 @@ def main():
         "setup_cmd": "cd /verif && /venv/bin/python tools/setup_check.py",
         "hooks": {
             "guard": "ORQUESTRA_QUANTUM_VERIF",
-            "enable": "no hooks exist in /repo: every seam (module-global open, numpy.random, plug-in base classes) is reached by injection from the harness process; checks import /repo/src directly (editable install), so they always run the current working tree",
+            "enable": "no hooks exist in /repo: every seam (module-global open / os / numpy names, numpy.random, plug-in base classes) is reached by injection from the harness process; checks import /repo/src directly (editable install), so they always run the current working tree",
             "baseline_off_cmd": "cd /repo && /venv/bin/python -m pytest -ra -q -p no:cacheprovider --timeout=900 --continue-on-collection-errors",
             "source_commits": [],
             "add_only": True,
